@@ -214,8 +214,8 @@ func check(c *pbt.Ctx, cs Case) {
 	}
 	v := cs.V
 	enc := tm.Encode(v)
-	buf := make([]byte, len(enc)) // exact capacity
-	copy(buf, enc)
+	// spare capacity: the library keeps one-past-the-end pointers in not-found nodes (base+len), which must stay inside the allocation
+	buf := append(make([]byte, 0, len(enc)+16), enc...)
 	e := &env{c: c, base: uintptr(unsafe.Pointer(&buf[0])), buf: buf}
 	saved := generic.UseNativeSkipForGet
 	generic.UseNativeSkipForGet = cs.O.NativeSkipGet
